@@ -15,7 +15,8 @@ from . import env
 
 
 class WorkerError(RuntimeError):
-    pass
+    in_library = False  # True when a worker died of an exception raised inside the library under test
+    sig = ""
 
 
 def pmap(func, tasks, nworkers=None):
@@ -44,8 +45,16 @@ def pmap(func, tasks, nworkers=None):
                     for i in range(w, len(tasks), n):
                         out.append((i, func(tasks[i])))
                     data = pickle.dumps(("ok", out), protocol=pickle.HIGHEST_PROTOCOL)
-                except BaseException:
-                    data = pickle.dumps(("err", traceback.format_exc()))
+                except BaseException as exc:
+                    tb = traceback.extract_tb(exc.__traceback__)
+                    inner = tb[-1].filename if tb else ""
+                    fn = ""
+                    for fr in reversed(tb):
+                        if "/okdmr/" in fr.filename:
+                            fn = os.path.basename(fr.filename) + ":" + fr.name
+                            break
+                    data = pickle.dumps(("err", (traceback.format_exc(), "/okdmr/" in inner and "/verif/" not in inner,
+                                                 f"{type(exc).__name__}@{fn}")))
                     code = 3
                 with os.fdopen(wfd, "wb") as f:
                     f.write(data)
@@ -56,6 +65,7 @@ def pmap(func, tasks, nworkers=None):
     results = [None] * len(tasks)
     got = 0
     errors = []
+    lib = []
     for pid, r in children:
         with os.fdopen(r, "rb") as f:
             data = f.read()
@@ -65,13 +75,22 @@ def pmap(func, tasks, nworkers=None):
             continue
         kind, payload = pickle.loads(data)
         if kind != "ok":
-            errors.append(payload)
+            if isinstance(payload, tuple):
+                errors.append(payload[0])
+                if payload[1]:
+                    lib.append(payload[2])
+            else:
+                errors.append(payload)
             continue
         for i, res in payload:
             results[i] = res
             got += 1
     if errors:
-        raise WorkerError("\n".join(errors))
+        err = WorkerError("\n".join(errors))
+        if lib and len(lib) == len(errors):
+            err.in_library = True
+            err.sig = lib[0]
+        raise err
     if got != len(tasks):
         raise WorkerError(f"coverage hole: {got} of {len(tasks)} tasks returned")
     return results
